@@ -128,6 +128,34 @@ theorem C04_merge_idempotent (g : G) (reqs : List (List Nat × Props))
     mergeAll (mergeAll g reqs) reqs = mergeAll g reqs :=
   mergeAll_fixed _ reqs (mergeAll_all_matched g reqs hg)
 
+/-! ### label sets are sets -/
+
+/-- a node matches a multi-label pattern only if it carries **every** label of the pattern:
+a node with a strict subset of the labels (and the same properties) is not a match -/
+theorem C04_match_requires_all_labels (n : Node) (ls : List Nat) (req : Props) (l : Nat)
+    (hl : l ∈ ls) (hn : l ∉ n.labels) : nodeMatches n ls req = false := by
+  simp only [nodeMatches, Bool.and_eq_false_iff]
+  left
+  simp only [hasLabels, List.all_eq_false, List.contains_iff_mem]
+  exact ⟨l, hl, by simpa using hn⟩
+
+/-- the written order of the labels of a pattern is irrelevant for matching -/
+theorem C04_label_order_irrelevant_for_match (n : Node) (ls ls' : List Nat) (req : Props)
+    (h : ∀ x, x ∈ ls ↔ x ∈ ls') : nodeMatches n ls req = nodeMatches n ls' req := by
+  have : hasLabels n ls = hasLabels n ls' := by
+    cases h1 : hasLabels n ls <;> cases h2 : hasLabels n ls' <;> try rfl
+    · simp only [hasLabels, List.all_eq_true, List.all_eq_false] at h1 h2
+      obtain ⟨x, hx, hc⟩ := h1
+      exact absurd (h2 x ((h x).mp hx)) hc
+    · simp only [hasLabels, List.all_eq_true, List.all_eq_false] at h1 h2
+      obtain ⟨x, hx, hc⟩ := h2
+      exact absurd (h1 x ((h x).mpr hx)) hc
+  simp only [nodeMatches, this]
+
+/-- … and a created node carries exactly the labels of its pattern, whatever their order -/
+theorem C04_created_label_set (ls : List Nat) (x : Nat) : x ∈ linsertAll [] ls ↔ x ∈ ls := by
+  simp [mem_linsertAll]
+
 /-! ### well-formedness and read-only statements -/
 
 /-- writes preserve well-formedness: unique handles, no dangling relationship — for every
@@ -211,6 +239,12 @@ theorem C04_plain_delete_refused_on_witness :
 /-! ### non-vacuity -/
 
 example : gAB.wf = true := by decide
+/-- the seeded-change witness: three `:L0` nodes, one `:L1 {k0: 7}`; MERGE (n:L0:L1 {k0: 7}) must create -/
+example : (okOf (exec [] ⟨[⟨1, [0], [(0, .int 1)]⟩, ⟨2, [0], [(0, .int 2)]⟩, ⟨3, [0], [(0, .int 3)]⟩,
+      ⟨4, [1], [(0, .int 7)]⟩], []⟩
+    ⟨[.merge ⟨some 1, [0, 1], [(0, .lit (.int 7))]⟩ [.prop 1 1 (.lit (.int 0))] [.prop 1 1 (.lit (.int 1))]], none⟩)).map
+      (fun r => r.1.nodes.drop 3) = some [⟨4, [1], [(0, .int 7)]⟩, ⟨5, [0, 1], [(0, .int 7), (1, .int 0)]⟩] := by
+  decide
 example : okOf (exec [] gAB ⟨[.matchN 0 [0] [], .delete true [0]], none⟩)
     = some (⟨[⟨2, [1], [(0, .int 2)]⟩], []⟩, []) := by decide
 example : GoodReq [(0, .int 1), (1, .str ['a'])] := by
